@@ -506,9 +506,12 @@ macro_rules! atomic_harness {
         pub fn $log() {
             let mut fx = FxL::new();
             let addr: usize = kani::any();
-            let r = fx.slice().store(1 as $T, addr, Ordering::SeqCst);
-            let _ = fx.slice().load::<$T>(addr, Ordering::SeqCst);
-            if r.is_ok() { fx.marked(addr, $SZ); } else { fx.unmarked(); }
+            let addr2: usize = kani::any();
+            let do_store: bool = kani::any();
+            // an atomic LOAD (anywhere, with or without a store elsewhere) reports nothing
+            let stored = if do_store { fx.slice().store(1 as $T, addr, Ordering::SeqCst).is_ok() } else { false };
+            let _ = fx.slice().load::<$T>(addr2, Ordering::SeqCst);
+            if stored { fx.marked(addr, $SZ); } else { fx.unmarked(); }
         }
     };
 }
